@@ -932,11 +932,23 @@ fn wline(s: &str) {
     let _ = l.flush();
 }
 
+thread_local! {
+    static LAST_LOC: std::cell::RefCell<String> = std::cell::RefCell::new(String::new());
+}
+fn install_loc_hook() {
+    std::panic::set_hook(Box::new(|info| {
+        let loc = info.location().map(|l| format!("{}:{}", l.file().trim_start_matches("/repo/"), l.line())).unwrap_or_default();
+        LAST_LOC.with(|c| *c.borrow_mut() = loc);
+    }));
+}
+
 struct Ctx {
+    task: usize,
     key: String, // "<font>:<mutation id>"
     counters: std::collections::BTreeMap<String, u64>,
     evals: u64,
     failures: usize,
+    sites: Vec<String>,
 }
 impl Ctx {
     fn count(&mut self, k: &str) {
@@ -954,16 +966,19 @@ impl Ctx {
         match r {
             Ok(v) => Some(v),
             Err(m) => {
+                let loc = LAST_LOC.with(|c| c.borrow().clone());
                 let short: String = m.chars().take(60).collect();
-                self.fail(name, &m, &short);
+                self.fail(name, &format!("{} @ {}", m, loc), &format!("{} @{}", short, loc));
                 None
             }
         }
     }
     fn fail(&mut self, api: &str, msg: &str, short: &str) {
         self.failures += 1;
-        if self.failures <= 6 {
-            wline(&format!("F {}", json!({"key": format!("{}:{}:{}", self.key, api, short), "panic": msg})));
+        let site = format!("{}:{}", api, short);
+        if !self.sites.contains(&site) {
+            wline(&format!("F {}", json!({"key": format!("{}:{}:{}", self.key, api, short), "panic": msg, "site": site, "task": self.task})));
+            self.sites.push(site);
         }
     }
     fn group(&mut self, name: &str) {
@@ -1806,7 +1821,7 @@ fn run_task(w: &World, idx: usize, totals: &mut std::collections::BTreeMap<Strin
             let (mid, data) = mutate_font(bytes, *m, &mut rng);
             let key = format!("{}:{}", name, mid);
             wline(&format!("B {} {}", idx, key));
-            let mut cx = Ctx { key, counters: Default::default(), evals: 0, failures: 0 };
+            let mut cx = Ctx { task: idx, key, counters: Default::default(), evals: 0, failures: 0, sites: vec![] };
             cx.count(&format!("mut.{}", mid.split(|c| c == '@' || c == '#').next().unwrap_or("?")));
             exercise_font(&mut cx, &data, &mut rng, w.thorough);
             if cx.counters.contains_key("fuzz.font_accepted") && *m > 0 {
@@ -1836,7 +1851,7 @@ fn run_task(w: &World, idx: usize, totals: &mut std::collections::BTreeMap<Strin
             let key = format!("ift-{}:{}{}", name, mid, if iftx.is_some() { "+iftx" } else { "" });
             wline(&format!("B {} {}", idx, key));
             let font = ift_base_font(&table, iftx.as_deref(), gv);
-            let mut cx = Ctx { key, counters: Default::default(), evals: 0, failures: 0 };
+            let mut cx = Ctx { task: idx, key, counters: Default::default(), evals: 0, failures: 0, sites: vec![] };
             exercise_ift(&mut cx, &font, &mut rng, w.thorough);
             if cx.counters.contains_key("ift.select_ok") && *m > 0 {
                 wline(&format!("N {}", cx.key));
@@ -1856,6 +1871,7 @@ fn worker_main(args: &[String]) {
     let n: usize = args.get(4).and_then(|s| s.parse().ok()).unwrap_or(1);
     let start: usize = args.get(5).and_then(|s| s.parse().ok()).unwrap_or(0);
     let seed = seed_from_env();
+    install_loc_hook();
     // run on a thread with a known stack size: runaway recursion overflows it and aborts the process,
     // which the parent observes
     let h = std::thread::Builder::new()
@@ -1937,6 +1953,7 @@ fn run_workers(tier: &str, thorough: bool, st: &mut Stats, cw_font: &mut Vec<(us
     }
     let mut active = n;
     let mut restarts = 0usize;
+    let mut fails: Vec<serde_json::Value> = vec![];
     while active > 0 {
         match rx.recv_timeout(Duration::from_millis(500)) {
             Ok((k, Some(line))) => {
@@ -1956,7 +1973,7 @@ fn run_workers(tier: &str, thorough: bool, st: &mut Stats, cw_font: &mut Vec<(us
                     }
                     "F " => {
                         if let Ok(v) = serde_json::from_str::<serde_json::Value>(rest) {
-                            st.oracle_failure(v);
+                            fails.push(v);
                         }
                     }
                     "C " => {
@@ -2042,6 +2059,18 @@ fn run_workers(tier: &str, thorough: bool, st: &mut Stats, cw_font: &mut Vec<(us
             }
         }
     }
+    // one report per panic site: the failing input with the smallest task index (deterministic)
+    fails.sort_by_key(|v| v.get("task").and_then(|t| t.as_u64()).unwrap_or(u64::MAX));
+    let mut seen: std::collections::BTreeMap<String, u64> = Default::default();
+    for v in fails {
+        let site = v.get("site").and_then(|s| s.as_str()).unwrap_or("?").to_string();
+        let c = seen.entry(site.clone()).or_insert(0);
+        *c += 1;
+        if *c == 1 {
+            st.oracle_failure(v);
+        }
+    }
+    st.v.insert("panic_sites".into(), json!(seen));
     st.v.insert("worker_restarts".into(), restarts.into());
 }
 
